@@ -22,8 +22,8 @@ import (
 // requests, executed as concurrent real sessions of several users.
 
 type C08Node struct {
-	Path   string `json:"path"` // relative to the tree root
-	Kind   string `json:"kind"` // file | dir | symlink
+	Path   string `json:"path"`             // relative to the tree root
+	Kind   string `json:"kind"`             // file | dir | symlink
 	Target string `json:"target,omitempty"` // symlink target (relative to the link's directory, or absolute with ROOT prefix)
 }
 
@@ -512,7 +512,7 @@ func init() {
 			"distinct = (rules + layout + requests, schedule hash). The deciding dimension is the configuration space; concurrency of users is secondary.",
 		Real: []string{"internal/user/server (HasFilePermission, iteratePaths)", "internal/server/handlers (readGlob, readFileIfPermissions)", "internal/config (ServerUserPermissions)",
 			"internal/server + x/crypto/ssh over simnet (one session per request, concurrent users)"},
-		Stub:        []string{"FIFOs and device files are not placed in the tree (opening them would block the simulated server's reader in a system call the simulator cannot see)", "OS ACL check is the non-linuxacl build's no-op"},
+		Stub: []string{"FIFOs and device files are not placed in the tree (opening them would block the simulated server's reader in a system call the simulator cannot see)", "OS ACL check is the non-linuxacl build's no-op"},
 		Assumptions: []string{"a rule's permission type is a lower-case word in front of the first ':' (readfiles: ...); anything else in front of a ':' belongs to the regular expression",
 			"the file served for a request is what the lexically cleaned request path resolves to"},
 		New:      func() Scenario { return &C08Scenario{} },
